@@ -59,8 +59,22 @@ def nleaves(tree):
     return 1 if tree == 'x' else nleaves(tree[0]) + nleaves(tree[1])
 
 
+POISON_TEXTS = ['PUSH nat 1 ; PUSH nat 2 ; PUSH nat 3 ; DIIP { FAIL }', 'PUSH nat 1 ; PUSH nat 2 ; PUSH nat 3 ; PAPPAIIR',
+                'PUSH (pair nat nat) (Pair 1 2) ; UNPAPAIR', 'PUSH nat 1 ; PUSH nat 3 ; PUSH nat 2 ; DIP { ASSERT_CMPEQ }',
+                'PUSH nat 1 ; PUSH nat 2 ; PUSH nat 3 ; DUUUUP', 'PUSH nat 1 ; PUSH nat 2 ; DIP { FAIL }']
+_runs = [0]
+
+
 def run_text(text):
     it = D.new_interpreter()
+    _runs[0] += 1
+    if _runs[0] % 4 == 0:
+        # every fourth macro runs on an interpreter whose previous cell was a macro that failed half-way
+        try:
+            if it.execute(parse(POISON_TEXTS[(_runs[0] // 4) % len(POISON_TEXTS)])).error is None:
+                it = D.new_interpreter()       # the cell did not fail: not the situation looked for
+        except Exception:
+            it = D.new_interpreter()
     try:
         code = parse(text)
     except Exception as e:
@@ -226,6 +240,14 @@ def run(ctx):
         out = items[:n] + [(T.STRING, 'x')] + items[n:]
         expect(ctx, 'diip', 'D%sP' % ('I' * n), pushes(items) + ' ; D%sP { PUSH string "x" }' % ('I' * n), ('ok', out))
         expect(ctx, 'duup', 'D%sP' % ('U' * n), pushes(items) + ' ; D%sP' % ('U' * n), ('ok', [items[n - 1]] + items))
+    # DI..IP with an empty body is still DIP n { }: it needs n elements to step over
+    for n in range(2, 5):
+        for size in range(0, n + 2):
+            for body in ('{}', '{ }', '{ {} }'):
+                if ctx.mine(n * 7 + size):
+                    st = tagged(size)
+                    text = (pushes(st) + ' ; ' if st else '') + 'D%sP %s' % ('I' * n, body)
+                    expect(ctx, 'diip-empty-body', 'D%sP %s on %d elements' % ('I' * n, body, size), text, ('ok', st) if size >= n else ('fail',))
     # comparison families
     if ctx.mine(0):
         for a, b in ((1, 2), (2, 2), (3, 2), (-1, 0)):
